@@ -1,4 +1,4 @@
-\* repaired model: chain 0..12 (+1), Retained 3, one batch per prune, min-age on, 8 operations; exhaustive: 342 777 distinct states (2 775 540 generated), 10 s on 8 workers
+\* repaired model: chain 0..12 (+1), Retained 3, one batch per prune, min-age on, 8 operations, event-filter windows of 4 blocks; exhaustive: 447 870 distinct states (3 786 907 generated), 35 s on 4 busy workers
 CONSTANTS
   MaxH = 13
   InitH = 12
